@@ -233,11 +233,11 @@ def _sample(case):
 
 SUBS = [
     Sub('content', oracle, _classify, strategy=lambda tier: _cases(),
-        budget={'quick': 25, 'thorough': 250}, sample=_sample,
+        budget={'quick': 60, 'thorough': 400}, sample=_sample,
         fingerprint=lambda c: fingerprint(c['resource'])),
     Sub('content-extensions', oracle, _classify,
         strategy=lambda tier: _cases(force_extension=True),
-        budget={'quick': 20, 'thorough': 200}, sample=_sample,
+        budget={'quick': 40, 'thorough': 300}, sample=_sample,
         fingerprint=lambda c: fingerprint(c['resource']),
         require_tags=('extension', 'external-entry', 'external-synset')),
     Sub('batch-boundary', batch_oracle, _batch_classify, enumerate=_batch_enum,
